@@ -143,14 +143,19 @@ func runC11(c *Ctx, w *World, r *Report) {
 			}
 			L := fa.Lin(amt)
 			// expect (top+8) - tobit + alignDown(frombit,3)
-			okA := L.K == top+8 && L.T["p2"] == -1 && len(L.T) == 2
-			for atom, coef := range L.T {
-				if atom == "p2" {
-					continue
-				}
-				x, cc, ok := asAlignDown(fa.AtomValue(atom))
-				if !ok || cc != 3 || coef != 1 || stripConv(x) != ssa.Value(fn.Params[1]) {
-					okA = false
+			// (frombit &^ 7 is 8*(frombit>>3) in the linear normal form; 40 - size - frombit&7 is the same amount)
+			wantA := linConst(top + 8).Sub(fa.Lin(fn.Params[2])).Add(linConst(0).addScaled(linAtom("(>> p1 c:3)"), 8))
+			okA := L.Eq(wantA)
+			if !okA {
+				// frombit&7 = frombit - 8*(frombit>>3): accept  (top+8) - tobit + frombit - (frombit & 7)
+				alt := linConst(top + 8).Sub(fa.Lin(fn.Params[2])).Add(fa.Lin(fn.Params[1]))
+				d := alt.Sub(L)
+				if len(d.T) == 1 && d.K == 0 {
+					for atom, coef := range d.T {
+						if x, j, ok := asLowMask(fa.AtomValue(atom)); ok && j == 3 && coef == 1 && stripConv(x) == ssa.Value(fn.Params[1]) {
+							okA = true
+						}
+					}
 				}
 			}
 			if !okA && bad == "" {
